@@ -49,6 +49,16 @@ CHECKS = {
    text="The C03 history generator with unsolicited reporting on; exact virtual transmission times of every fragment are recorded by the in-memory physical layer, and the clauses U1-U8 of DESIGN.md §5 C14 (start-up nulls, enabled classes, one outstanding, identical retries within the limit, retry delay, DISABLE, deferred READ, progress) are evaluated after every step.",
    note="'Up to' n retries: fewer is not a violation. Events exactly at a deadline instant are not judged. ENABLE/DISABLE take effect when their reply is observed.",
    design="DESIGN.md §5 C14"),
+ "C01": dict(
+   technique="property-based testing / fuzz-style generation: grammar+mutation fragments through every parser consumer, frame streams through link+transport at all decode levels, hostile session scripts with a liveness probe",
+   text="Three generators: (1) grammar-derived and mutated application fragments through ParsedFragment::parse, Display at all decode levels, header iteration, request/response validation, measurement extraction with a draining handler and control echo writers; (2) frame streams with arbitrary control bytes, addresses, transport headers and damage through the real link layer and transport reassembly, both roles, all decode-level combinations; (3) hostile session scripts (fragments, raw segments, raw wire bytes, state-moving requests, updates into tiny event buffers, confirms, time, reconnects) against a real outstation session with generated configuration. Oracle: no panic (overflow checks and debug assertions on), no busy loop at one virtual instant, and after the script the endpoint still answers a link status request and a READ with a fresh sequence number (Close mode: on the next connection). The master role is covered by the master_script sub-check once the MasterRig is in place.",
+   note="Non-yielding infinite loops are only caught by a wall-clock watchdog and reported as INCONCLUSIVE. TLS/serial/UDP sockets are not exercised; datagram semantics are (C06).",
+   design="DESIGN.md §5 C01"),
+ "C07": dict(
+   technique="exhaustive enumeration of the link addressing table + property-based FCB sequences + generated session cases",
+   text="The complete table 256 control bytes x 19 destination addresses x 7 source addresses x role x self-address feature x {fresh, after link reset} x 2 passes (440k frames) is run through link::layer::Layer and compared with a transcription of the statement (accepted, reply function/addresses, delivery, FCB toggling); generated RESET/CONFIRMED_USER_DATA sequences check the frame-count-bit rule; generated session cases send valid and invalid fragments from the configured master, a foreign master and the three broadcast addresses in idle and confirm-wait states with the any-master/broadcast features on and off: nothing may be transmitted in reaction to a broadcast, nothing but link-layer traffic and no callback for a foreign master.",
+   note="Frames with malformed flag combinations and secondary frames are only required not to be acted on when not addressed to the endpoint. A REQUEST_LINK_STATUS to a broadcast address is required NOT to be answered.",
+   design="DESIGN.md §5 C07"),
 }
 NOT_YET = {
 }
